@@ -167,3 +167,87 @@ func (e *Exec) confineDone(fn *ssa.Function, c *Contract) error {
 	}
 	return nil
 }
+
+// afterLoops decides the after-loop clauses on the control-flow graph.
+func (e *Exec) afterLoops(fn *ssa.Function, c *Contract) error {
+	for _, al := range c.AfterLoops {
+		// loop headers whose key matches, in block order
+		var heads []*ssa.BasicBlock
+		for _, h := range fn.Blocks {
+			isHead := false
+			for _, p := range h.Preds {
+				if h.Dominates(p) {
+					isHead = true
+				}
+			}
+			if isHead && (strings.Contains(loopKey(h), al.LoopKey) || strings.Contains(loopKeyNamed(h), al.LoopKey)) {
+				heads = append(heads, h)
+			}
+		}
+		if al.Nth < 1 || al.Nth > len(heads) {
+			return fmt.Errorf("out of subset: after-loop %s %s#%d: %s has %d such loops", al.Callee, al.LoopKey, al.Nth, FuncName(fn), len(heads))
+		}
+		h := heads[al.Nth-1]
+		// natural loop of h
+		body := map[*ssa.BasicBlock]bool{h: true}
+		var stack []*ssa.BasicBlock
+		for _, p := range h.Preds {
+			if h.Dominates(p) && !body[p] {
+				body[p] = true
+				stack = append(stack, p)
+			}
+		}
+		for len(stack) > 0 {
+			b := stack[len(stack)-1]
+			stack = stack[:len(stack)-1]
+			for _, p := range b.Preds {
+				if !body[p] {
+					body[p] = true
+					stack = append(stack, p)
+				}
+			}
+		}
+		// the exit taken by the loop's own test: for range loops the test sits in the header, for `for` loops too
+		var exits []*ssa.BasicBlock
+		for _, sc := range h.Succs {
+			if !body[sc] {
+				exits = append(exits, sc)
+			}
+		}
+		n := 0
+		for _, b := range fn.Blocks {
+			for _, in := range b.Instrs {
+				ci, ok := in.(ssa.CallInstruction)
+				if !ok {
+					continue
+				}
+				name := ""
+				if cal := ci.Common().StaticCallee(); cal != nil {
+					name = cal.Name()
+				} else if ci.Common().Method != nil {
+					name = ci.Common().Method.Name()
+				}
+				if name != al.Callee {
+					continue
+				}
+				n++
+				ok2 := false
+				for _, x := range exits {
+					if x == b || x.Dominates(b) {
+						ok2 = true
+					}
+				}
+				e.curFr, e.curIn = nil, nil
+				g := True
+				if !ok2 {
+					g = False
+				}
+				e.oblige(&State{pc: True, heap: map[string]*Term{}}, "after-loop", fmt.Sprintf("%s#%d:%s#%d", al.Callee, n, al.LoopKey, al.Nth), g, e.posOf(in))
+			}
+		}
+		if n == 0 {
+			return fmt.Errorf("out of subset: after-loop %s: no call of %s in %s", al.Callee, al.Callee, FuncName(fn))
+		}
+	}
+	return nil
+}
